@@ -13,9 +13,9 @@ import warnings
 PROP = "C13"
 COQ = dict(imports=["Model.AlterCol", "Spec.C13"], in_ty="c13_in", out_ty="out",
            corr="corr_C13", decide="check_C13", model="model_C13")
-THEOREMS = ["C13_decider_sound", "C13_model_holds_partial", "C13_effect", "C13_restated", "C13_raises_instead",
-            "C13_raises_iff_unsupported", "C13_autoinc_ignored_refuted", "C13_stated_enough_exact",
-            "C13_stated_enough_minimal", "C13_sem_is_assign"]
+THEOREMS = ["C13_sem_is_assign", "C13_decider_sound", "C13_model_holds_partial", "C13_effect", "C13_restated",
+            "C13_raises_instead", "C13_raises_iff_unsupported", "C13_autoinc_ignored", "C13_autoinc_ignored_refuted",
+            "C13_stated_enough_exact", "C13_stated_enough_minimal"]
 TRUSTED = [
     "C13 statement tokenizer in harness/props/c13.py (SQL text -> abstract statements; strict per dialect, fails loudly)",
     "abstract meaning `sem` of each statement on a column state (MySQL CHANGE/MODIFY replace the whole definition; "
@@ -86,8 +86,9 @@ RULE = (
     "new_column_name{absent,'d'} x comment{absent(False),None,'nc'} x autoincrement{absent,True,False}; "
     "existing = existing_type{absent,T0[,DT0]} x existing_nullable{absent,True,False} x existing_server_default{absent(False),None,'7'} "
     "x existing_comment{absent,'oc'} x existing_autoincrement{absent,True[,False]}. "
-    "quick: default/postgresql/mssql/oracle complete (existing_autoincrement absent/True), mysql complete incl. DateTime types and "
-    "existing_autoincrement False, mariadb and sqlite on the presence lattice (one polarity per boolean), schema alternating along "
+    "quick: mssql complete (existing_autoincrement absent/True), default/postgresql/oracle complete except existing_nullable "
+    "absent/False and existing_autoincrement absent/True, mysql complete incl. DateTime types (existing_autoincrement absent/True), "
+    "mariadb and sqlite on the presence lattice (one polarity per boolean), schema alternating along "
     "the enumeration, plus postgresql_using on the postgresql presence lattice. thorough: all seven dialects complete x {schema, no "
     "schema}, mysql/mariadb with DateTime types, plus on every dialect a slice with requested type == existing type / DateTime types "
     "and a slice with postgresql_using. non-trivial = no exception and at least one statement emitted; distinct by encoded input")
@@ -95,10 +96,11 @@ RULE = (
 
 def generate(tier, seed):
     if tier == "quick":
-        for d in ("default", "postgresql", "mssql", "oracle"):
-            yield from lattice(d, [None, "T1"], [None, "T0"], "alt", eauto=PRES)
+        for d in ("default", "postgresql", "oracle"):
+            yield from lattice(d, [None, "T1"], [None, "T0"], "alt", enull=[None, False], eauto=PRES)
+        yield from lattice("mssql", [None, "T1"], [None, "T0"], "alt", eauto=PRES)
         yield from lattice("sqlite", [None, "T1"], [None, "T0"], "alt", rnull=PRES, rauto=PRES, enull=[None, False], eauto=PRES)
-        yield from lattice("mysql", [None, "T1", "DT1"], [None, "T0", "DT0"], "alt")
+        yield from lattice("mysql", [None, "T1", "DT1"], [None, "T0", "DT0"], "alt", eauto=PRES)
         yield from lattice("mariadb", [None, "T1", "DT1"], [None, "T0", "DT0"], "alt", rnull=PRES, rauto=PRES,
                            enull=[None, False], eauto=PRES)
         yield from lattice("postgresql", [None, "T1"], [None, "T0"], "alt", rnull=PRES, rauto=PRES, enull=PRES, eauto=PRES,
